@@ -904,8 +904,21 @@ def run_cli_combo(bits, fake_url, workdir, file_arg=None):
         empty = os.path.join(d, "empty.log")
         open(empty, "wb").close()
         stdin = [open(inp, "rb").read(), ("file", inp), ("file", empty), b""][kind]
+    # for half of the jobs that name an output file, that file already EXISTS (an earlier run's output): a rejected job may neither
+    # remove nor change it
+    stale = None
+    if f["out"] and zlib.crc32((bits + "stale").encode()) % 2 == 0:
+        stale = b'{"earlier":"run"}\n' * 7
+        with open(os.path.join(scratch, "out.log"), "wb") as fh:
+            fh.write(stale)
     rc, so, se = run_cli(args, stdin=stdin, env=env, cwd=scratch, timeout=60)
     created = sorted(os.listdir(scratch))
+    if stale is not None:
+        op_ = os.path.join(scratch, "out.log")
+        if not os.path.exists(op_):
+            created.append("out.log:pre-existing-file-REMOVED")
+        elif open(op_, "rb").read() == stale:
+            created.remove("out.log")
     shutil.rmtree(d, ignore_errors=True)
     return f, rc, so, se, created
 
@@ -1715,6 +1728,30 @@ def oracle_c09(tables, seed, tier, deep):
                     dist["roundtrip-nested"] += 1
                     if rc != 0 or not so.endswith(("Raw value: " + want_ + "\n").encode()):
                         viol.append({"site": "roundtrip:value-that-is-a-ciphertext" if k_ != "plain" else "roundtrip:explain", "detail": "decrypt gave exit %d, %r; the value in the log was %r" % (rc, so[-90:], want_[:60]), "input": to_json(line2)[:400]})
+            # the key path is a DANGLING symlink (the key is to live elsewhere; nothing is there yet): whatever key the run encrypts
+            # with must be the one a later `decrypt` with the same path finds
+            for kind_ in ("dangling-symlink", "symlink-into-new-dir"):
+                dd = tempfile.mkdtemp(dir=work)
+                tgt = os.path.join(dd, "vault", "real.key") if kind_ == "symlink-into-new-dir" else os.path.join(dd, "real.key")
+                if kind_ == "symlink-into-new-dir":
+                    os.mkdir(os.path.join(dd, "vault"))
+                kp = os.path.join(dd, "link.key")
+                os.symlink(tgt, kp)
+                ins = os.path.join(dd, "in.log")
+                open(ins, "w").write(to_json(Obj([("c", "COMMAND"), ("msg", "Slow query"), ("attr", Obj([("ns", "d.c"), ("command", Obj([("find", "c"), ("filter", Obj([("a", "zqsymlinkvalue")]))]))]))])) + "\n")
+                outs = os.path.join(dd, "out.log")
+                rc, so, se = run_cli(["redact", ins, "-o", outs, "--encrypt", "--encryptionKeyFile", kp], cwd=dd)
+                n += 1
+                dist["keypath:" + kind_] += 1
+                if rc == 0 and os.path.exists(outs):
+                    try:
+                        ct_ = get_path(parse_json(open(outs, encoding="utf-8").read()), ("attr", "command", "filter", "a"))
+                    except Exception:
+                        ct_ = None
+                    rc2, so2, se2 = run_cli(["decrypt", ct_ or "", "--decryptionKeyFile", kp], cwd=dd)
+                    n += 1
+                    if rc2 != 0 or not so2.endswith(b"Raw value: zqsymlinkvalue\n"):
+                        viol.append({"site": "roundtrip:keypath:" + kind_, "detail": "redact --encrypt exited 0 with the key path a %s, but decrypt with the same key path gives exit %d, %r" % (kind_, rc2, (so2 + se2)[-120:]), "input": "zqsymlinkvalue"})
             # tampering: single-byte corruptions and truncations of ciphertexts, wrong key
             key2 = os.path.join(work, "k2.key")
             open(key2, "w").write(base64.b64encode(bytes(rng.below(256) for _ in range(64))).decode())
@@ -3165,7 +3202,11 @@ def key_encodings(priv):
     raw = priv.encode("utf-8")
     encs = {"verbatim": raw, "trimmed": raw.strip(), "urlencoded": urllib.parse.quote(priv, safe="").encode(), "urlencoded+": urllib.parse.quote_plus(priv).encode(),
             "base64": base64.b64encode(raw), "base64url": base64.urlsafe_b64encode(raw), "hex": binascii.hexlify(raw), "HEX": binascii.hexlify(raw).upper()}
-    return {k: v for k, v in encs.items() if len(v) >= 6}
+    out = {k: v for k, v in encs.items() if len(v) >= 6}
+    if len(raw.strip()) < 6 and len(raw.strip()) >= 3 and not raw.strip().isalnum():
+        # a very short key with punctuation in it is still unmistakable in TEXT (stdout, stderr, request lines): searched there only
+        out["verbatim-short(text artefacts only)"] = raw.strip()
+    return out
 
 
 def oracle_c20(tables, seed, tier, deep):
@@ -3209,6 +3250,8 @@ def oracle_c20(tables, seed, tier, deep):
                     arte["request#%d" % i] = ("%s %s?%s\n" % (e["method"], e["path"], e["query"]) + "\n".join("%s: %s" % kv for kv in e["headers"].items())).encode("utf-8", "replace")
                 for where, blob in arte.items():
                     for ename, eb in encs.items():
+                        if ename.startswith("verbatim-short") and not (where.startswith("stdout") or where.startswith("stderr") or where.startswith("request#")):
+                            continue
                         if eb and eb in blob:
                             viol.append(dict(rep, site="key-leak:%s:%s" % (where.split("#")[0].split(":")[0], ename), detail="the private key (%s) occurs in %s" % (ename, where)))
                 # no challenge -> no credential material at all
